@@ -226,7 +226,7 @@ pub fn check(s: &'static dyn Proto, c: &Case, st: &mut Stats, _k: &KnownFindings
 
 pub const BUDGET: Budget = Budget {
     quick: (400, 160, 60),
-    thorough: (500, 150, 50),
+    thorough: (3000, 900, 300),
     shrink: 60,
 };
 
